@@ -750,6 +750,8 @@ class Eval:
                 return self.apply(f, args)
             if n == 'deque' and len(args) == 1:
                 return args[0]
+            if n in ('tuple', 'list') and len(args) <= 1:
+                return Seq(self.iterate(args[0])) if args else Seq(())
             modfn = self.module_function(n)
             if modfn is not None:
                 return self.call_function(modfn, args)
